@@ -915,9 +915,8 @@ def correspondence(chk, drv, inputs, res, seeds, cl):
             out["skipped_sqlparse_analyzer"] += 1      # the model is a model of the sqlfluff extractors
             continue
         if max((res[s][x["id"]].get("_meta") or {}).get("rename_pairs", 0) for s in seeds) > 1:
-            # D10 class: the model has the pair order as a parameter of `buildWith`, not of the driver's `sql` command
-            out["skipped_multi_rename"] += 1
-            continue
+            # since the repair of D10 the pairs are applied in statement order: an ordinary case (counted for the record)
+            out["multi_rename_compared"] = out.get("multi_rename_compared", 0) + 1
         outs = []
         for a in ans[2 * gi: 2 * gi + 2]:
             o = a.get("out") or {}
